@@ -54,6 +54,8 @@ pub struct Ctx {
     pub flush_calls: bool,
     /// record the chunk-iteration steps (hook H4) of every call made through `call`
     pub chunk_events: bool,
+    /// annotated tree to attach to the next Construct event (faithful scratch model)
+    pub construct_tree: Option<Value>,
     /// replay filter: run only scenarios with exactly this label
     pub only: Option<String>,
     cases: std::collections::HashSet<String>,
@@ -125,6 +127,7 @@ impl Ctx {
             scenarios: 0,
             flush_calls: false,
             chunk_events: false,
+            construct_tree: None,
             only: None,
             cases: Default::default(),
             nontrivial: 0,
@@ -268,13 +271,14 @@ impl Ctx {
     ) -> Option<Planned<T>> {
         self.next_iid += 1;
         let iid = self.next_iid;
+        let tree = self.construct_tree.take().unwrap_or(json!([]));
         match built {
             Ok(fft) => {
                 let adv = advertised(&*fft);
                 self.tr.emit(
                     "Construct",
                     json!({"iid": iid, "elem": T::ELEM, "outcome": "ok", "n": n, "dir": dir_name(dir), "len": fft.len(),
-                           "rdir": dir_name(fft.fft_direction()), "scr": adv, "desc": desc}),
+                           "rdir": dir_name(fft.fft_direction()), "scr": adv, "desc": desc, "tree": tree}),
                 );
                 Some(Planned { iid, fft, n, dir, adv })
             }
@@ -282,7 +286,7 @@ impl Ctx {
                 self.tr.emit(
                     "Construct",
                     json!({"iid": iid, "elem": T::ELEM, "outcome": "panic", "n": n, "dir": dir_name(dir), "len": 0,
-                           "rdir": "F", "scr": [0,0,0], "desc": desc, "msg": msg.chars().take(200).collect::<String>()}),
+                           "rdir": "F", "scr": [0,0,0], "desc": desc, "tree": [], "msg": msg.chars().take(200).collect::<String>()}),
                 );
                 None
             }
